@@ -374,6 +374,13 @@ func c16(p *core.Prog, r *core.Report) {
 	r.Rule("C16-R4", "E6 guards", 2, "root list drops removable peers")
 
 	locks := p.ComputeLocks()
+	// the counters canRemove() reads (connection lists, sub-channel reference
+	// count) are shared by sibling peer lists with separate locks: they are
+	// only touched under the peer's own lock (shared with C04-R1)
+	r.Rule("C16-R5", "E4 locksets", 6, "the peer's connection lists and reference count are accessed under the peer's lock")
+	guardedAccesses(p, r, locks, "C16-R5", func(typ, field string, fld *types.Var) bool {
+		return typ == "Peer"
+	})
 	for _, fname2 := range []string{"inboundConnections", "outboundConnections"} {
 		fld := mustField(p, r, "", "Peer", fname2)
 		if fld == nil {
@@ -816,6 +823,34 @@ func c15Order(p *core.Prog, r *core.Report) {
 	if f := mustFunc(p, r, "", "Channel", "updatePeer"); f != nil {
 		ok := onEveryPath(f, "PeerList.onPeerChange") && onEveryPath(f, "subChannelMap.updatePeer")
 		r.Check(ok, "C15-R5", fname(f), "root list and isolated sub-channel lists are told", p.Pos(f.Pos()), "peers.onPeerChange(p) and subChannels.updatePeer(p) on every path", "a status change does not reach the root list or the sub-channel lists: stale scores")
+	}
+	// a peer that is told about a closing connection (it may lose it) is
+	// re-scored right afterwards, on every path: otherwise it keeps the score
+	// of a connected peer and ranks before unconnected ones
+	nTold := 0
+	for _, cs := range p.CallsTo("Peer.connectionCloseStateChange") {
+		if !p.InAnalysed(cs.Fn) || pkgOf(cs.Fn) != core.Root {
+			continue
+		}
+		if _, isCall := cs.Call.(*ssa.Call); !isCall {
+			continue
+		}
+		nTold++
+		peer := core.CallArgs(cs.Call)[0]
+		isUpd := func(i ssa.Instruction) bool {
+			c, ok := core.IsCall(i, "Channel.updatePeer")
+			if !ok {
+				return false
+			}
+			args := core.CallArgs(c)
+			return len(args) == 2 && args[1] == peer
+		}
+		res := core.ReachAvoiding(cs.Fn, cs.Call, core.IsReturn, isUpd, nil)
+		r.Check(!res.Found, "C15-R5", fname(cs.Fn), fmt.Sprintf("peer told about a close (#%d) is re-scored", nTold), p.Pos(cs.Call.Pos()),
+			"updatePeer(peer) follows on every path", "a peer that may have lost a connection is not re-scored on some path: it keeps a connected peer's score and is preferred over other unconnected peers: "+p.TrailString(res))
+	}
+	if nTold < 2 {
+		r.Errorf("expected at least two sites telling a peer about a closing connection, found %d", nTold)
 	}
 	if f := mustFunc(p, r, "", "subChannelMap", "updatePeer"); f != nil {
 		ok := len(core.CallsIn(f, "PeerList.onPeerChange")) == 1
